@@ -5,11 +5,11 @@ ROOT = os.path.dirname(os.path.dirname(os.path.abspath(__file__)))
 
 P = {
  "C01": dict(tech="property-based testing: generated colours over a macro-generated type-pair matrix; round-trip, commutation (metamorphic) and alpha-transparency oracles in a cartesian embedding",
-             text="Generated-input exploration of every existing ordered pair of the conversion group (f32 and f64, with and without Alpha): A->B->A round trip, direct vs. via-intermediate commutation, bitwise alpha transparency; tolerances by path tier (1e-10 / 2e-5 / 6e-4). No absence claim.",
-             note="Trusts the harness' embedding and the independent f64 reference used to place source colours; tolerances calibrated on the pinned tree (DESIGN 3.4).", ref="4/C01"),
+             text="Generated-input exploration of every existing ordered pair of the conversion group (f32 and f64, with and without Alpha): A->B->A round trip, direct vs. via-intermediate commutation, bitwise alpha transparency; tolerances by path tier (1e-10 / 2e-5 / 6e-4; f32 2e-3 after a conditioning filter), replaced by a measured-conditioning bound where a case exceeds its tier; every intermediate space of the 51-space matrix. No absence claim.",
+             note="Trusts the harness' embedding and the independent f64 reference used to place source colours; tolerances calibrated on the pinned tree; domain rules (knee sliver, L* < 1e-5 black flush, hexcone representability) in DESIGN 0.3.", ref="4/C01"),
  "C02": dict(tech="property-based differential testing against independent f64 reference formulas written from the publications, with threshold-straddling generators",
              text="Every directly implemented conversion step is compared with an independently written f64 reference (CIE 15, RGB standards with derived matrices, hexcone HSL/HSV/HWB, Ottosson ok_color, HSLuv reference) on generated and threshold-straddling inputs.",
-             note="The references are the trusted base; they are self-checked against the repository's CSV data sets.", ref="4/C02"),
+             note="The references are the trusted base; they are self-checked at start-up against published sample values (Lindbloom's sRGB matrix, Ottosson's Oklab examples, Lab / HSLuv / Okhsl / Okhsv of sRGB red). Direct conversions are found mechanically: the 208 of 513 table entries for which a published relation exists.", ref="4/C02"),
  "C03": dict(tech="property-based testing with a model clamp derived from the public min/max accessors; far-out mixed-direction generators",
              text="Generated far-out-of-range colours for every Clamp/IsWithinBounds implementor (bare, Alpha, slices, integer components): clamp is within bounds, identity on in-bounds input, idempotent, equals the model clamp; from_color == unclamped+clamp, try_from_color Ok iff in bounds.",
              note="Model clamp written from the documented accessors; Okhsv's documented 1e-6 saturation slack is part of the model.", ref="4/C03"),
@@ -39,8 +39,8 @@ P = {
              note="Exact residues computed in f64/i128 in the harness.", ref="4/C11"),
  "C12": dict(tech="exhaustive enumeration (2^24 hex colours, packed words, all strings of <=4 symbols) plus generated strings against a model parser; libFuzzer target in the thorough tier",
              text="All 2^24 Rgb<u8> through hex formatting and parsing, packed integers for the four RGBA and two luma orders, every SVG name and near misses against the text file, and strings over an adversarial alphabet against a model of the documented grammar ('#'? HEX{n}); never a panic.",
-             note="Model parser and name table parsed from codegen/res/svg_colors.txt by the harness.", ref="4/C12"),
- "C13": dict(tech="model-based stateful property testing: generated guard-operation programs interpreted against an out-of-place reference model; Miri stage in the thorough tier",
+             note="Model parser written from the documented grammar; the name table is a committed snapshot (harness/src/named_table.rs) of the 148 SVG names.", ref="4/C12"),
+ "C13": dict(tech="model-based stateful property testing: generated guard-operation programs interpreted against an out-of-place reference model; libFuzzer (ASan) target with the same oracle and a Miri stage in the thorough tier",
              text="Generated buffers and programs over {deref, mutate, then_into, into_unclamped/clamped_guard, restore, drop, forget} for a closed universe of layout-compatible types, compared bitwise with plain out-of-place conversion; same address/length/capacity.",
              note="Reference model = Vec + ordinary from_color/from_color_unclamped.", ref="4/C13"),
  "C14": dict(tech="complete enumeration of the finite configuration axes (RGB standards, white-point pairs, cone matrices) with generated grey levels and XYZ colours against independent published tables",
@@ -48,14 +48,14 @@ P = {
              note="White points and primaries re-entered from the publications in the harness.", ref="4/C14"),
  "C15": dict(tech="property-based testing with dense hue/saturation/lightness grids and gamut-surface RGB generators; containment and round-trip oracles",
              text="Generated and gridded in-bounds colours of the seven gamut-bounded cylindrical spaces convert into [0,1]^3 within stated per-space tolerances; in-gamut RGB converts within bounds and back to the same colour.",
-             note="Tolerances are 2x the worst excursion measured on the pinned tree (DESIGN 4/C15): they are the explicit form of the statement's 'small tolerance'.", ref="4/C15"),
+             note="Tolerances are about 2x the worst excursion found on the pinned tree (DESIGN 4/C15 as built): they are the explicit form of the statement's 'small tolerance'; three open findings at the tips of the Ok / HSLuv gamuts and at the blue hue are excluded by key.", ref="4/C15"),
  "C16": dict(tech="property-based testing: generated XYZ x viewing conditions; round-trip, partial/full consistency and differential check against the published CAM16 equations",
              text="Generated colours and viewing conditions (luminances, surround, discounting, static/dynamic white): XYZ->CAM16->XYZ for the full and six partial types, partial == full attributes, UCS Jab<->Jmh<->Jmh lossless, forward model vs. Li et al.'s equations.",
              note="CAM16 reference in the original Li et al. form written in the harness.", ref="4/C16"),
  "C17": dict(tech="property-based differential testing of SIMD lanes against scalar results with independently generated lanes; permutation metamorphism; mask semantics",
-             text="Lanes filled independently (different branches per lane) for f32x4/f32x8/f64x2/f64x4: lane i == scalar op on input i (bitwise where no approximate kernel is involved), lane permutation commutes, pack/unpack identity, mask compare/select lane-wise, f32 vs f64 agreement.",
+             text="Lanes filled independently (different branches per lane) for f32x4/f32x8/f64x2/f64x4: lane i == scalar op on input i (bitwise where no approximate kernel is involved), lane permutation commutes, pack/unpack identity, mask compare/select lane-wise, every numeric / angle trait method of the vector types lane by lane, f32 vs f64 agreement; 2230 generated (vector type, conversion or operator) entries.",
              note="f32 SIMD tolerance reflects wide's approximate reciprocal/transcendentals (DESIGN 4/C17).", ref="4/C17"),
- "C18": dict(tech="model-based stateful property testing: generated operation sequences against Vec<Color>; libFuzzer target in the thorough tier",
+ "C18": dict(tech="model-based stateful property testing: generated operation sequences against Vec<Color>; libFuzzer (ASan) target with the same oracle and a Miri stage in the thorough tier",
              text="Generated programs over push/pop/extend/collect/clear/drain/get/get_mut/iter/iter_mut/rev/len for colour types with and without hue and alpha, compared step by step with a plain Vec of colours (contents, lengths, yielded items, panics).",
              note="Reference model = Vec<Color>.", ref="4/C18"),
  "C19": dict(tech="property-based testing over RNG seeds and generated end points; fixed-seed Kolmogorov-Smirnov statistics for volume uniformity",
